@@ -1163,6 +1163,11 @@ impl TDigestView<'_> {
         }
         let last_weight = self.centroids[num_centroids - 1].weight();
         if last_weight > 1. && (centroids_weight - weight <= last_weight / 2.) {
+            if last_weight <= 2. {
+                // the half of the last centroid beyond its mean is a single sample: max itself
+                // (the interpolation below would divide zero by zero)
+                return Some(self.max);
+            }
             return Some(
                 self.max
                     - (((centroids_weight - weight - 1.) / ((last_weight / 2.) - 1.))
